@@ -59,20 +59,20 @@ def handleBoardPos (i o : Json) : Except String Verdict := do
     for ix in row do
       let impl := (paths.getD ix none)
       let p : Pos := ⟨line, col⟩
-      -- (i) model vs implementation
-      let m := boardAtPos root tree p
-      if m != impl then
-        return .mismatch "board-at-position" s!"{line}:{col} model {showPath m} impl {showPath impl} (text of {text.length} bytes)"
       -- the theorem's hypothesis on this tree (well nested at p): checked when the parser accepted the text
       if boards.isSome && !(wnListB p tree && tree.all fun k => !k.r.has p || root.has p) then
         return .mismatch "tree-not-well-nested" s!"{line}:{col}"
-      -- (ii) the property: innermost board whose block contains the position
+      -- (i) the property: innermost board whose block contains the position
       if let some bs := boards then
         let want := innermostBoard bs p
         if impl != want then
           if impl.isNone && betweenBoards conts p want then
             return .specfalse "between-boards-answers-root" s!"{line}:{col} innermost board {showPath want}, reported nil"
           return .specfalse "board-at-position-not-innermost" s!"{line}:{col} innermost board {showPath want}, reported {showPath impl}"
+      -- (ii) model vs implementation
+      let m := boardAtPos root tree p
+      if m != impl then
+        return .mismatch "board-at-position" s!"{line}:{col} model {showPath m} impl {showPath impl} (text of {text.length} bytes)"
       col := col + 1
     line := line + 1
   return .ok
